@@ -298,6 +298,8 @@ __CPROVER_ensures(logger != NULL && logger->vtable != NULL && logger->vtable->se
 
 #ifdef VERIF_CHANNEL_TU
 #    include <aws/common/array_list.h>
+#    include <aws/common/condition_variable.h>
+#    include <aws/common/mutex.h>
 /* ---------------------------------------------------------------- channels (log_channel.c), sequential facts only
  * Ghost view of the channel's mutex and of the calls that must happen under it:
  *   g_locked                    the channel mutex is held by this thread
@@ -405,6 +407,157 @@ TEARDOWN_CONTRACT
 void bg_list_clean_up_contract(struct aws_array_list *list)
 __CPROVER_requires(list == g_pending)
 TEARDOWN_CONTRACT
+;
+
+/* ---------------------------------------------------------------- body of the background thread (sequential form)
+ * aws_background_logger_thread is proved against the contract in pass 2 with every mutex / condition-variable /
+ * array-list / string operation replaced by the bgt_* contracts below (replace "real_name/bgt_..._contract").
+ *
+ * Model.  Every line the channel ever accepted has a SEQUENCE NUMBER 0, 1, 2, ... (its position in the order in which
+ * the senders appended it under the mutex).  A list is seen abstractly as the run of sequence numbers
+ * [base, base + length): g_base_p for the pending list, g_base_l for the thread's private list.
+ *   g_accepted        number of lines accepted so far (the next sequence number)
+ *   g_sync_calls      synchronisation points passed so far (aws_mutex_lock and aws_condition_variable_wait_pred)
+ *   g_wseq, g_wline   an ARBITRARY sequence number and the aws_string that carries it ("for all lines" witness: the
+ *                     harness leaves both unconstrained).  Assumed: accepted lines are pairwise different live strings
+ *                     (send transfers ownership), so an element is g_wline exactly when its number is g_wseq.
+ *   g_write_calls / g_destroy_calls   calls of the writer's write function / of aws_string_destroy
+ * A synchronisation point (other threads run) appends an ARBITRARY number of new lines to the pending list and leaves
+ * `finished` with an ARBITRARY value; it never removes lines (only this thread does).
+ * Exactly once and in order are stated per call, as preconditions of the write / destroy contracts:
+ *   the n-th write call (n = g_write_calls) is handed g_wline if and only if n == g_wseq,
+ *   the n-th destroy call destroys g_wline if and only if n == g_wseq, and only after the n-th write,
+ * and the thread's postcondition says g_write_calls == g_destroy_calls == g_accepted.  As g_wseq is arbitrary: line n
+ * is written by write call n and by no other, destroyed by destroy call n and by no other, for every n < g_accepted.
+ * The bounded unit switches g_bgt_bounded on: then at most g_bgt_max_lines lines are ever accepted and from the
+ * g_bgt_max_syncs-th synchronisation point on `finished` is set and no line arrives any more. */
+size_t g_accepted, g_base_p, g_base_l, g_sync_calls, g_wseq, g_local_inits, g_local_cleanups;
+struct aws_string *g_wline;
+struct aws_array_list *g_local;     /* the thread's private list (set by the init contract) */
+struct aws_log_writer *g_bgt_writer; /* the channel's writer */
+bool g_bgt_bounded;
+size_t g_bgt_max_lines, g_bgt_max_syncs;
+#define BGT_GHOST_RESET()                                                                                              \
+    do {                                                                                                               \
+        g_accepted = g_base_p = g_base_l = g_sync_calls = g_local_inits = g_local_cleanups = 0;                        \
+        g_local = NULL;                                                                                                \
+        g_bgt_bounded = false;                                                                                         \
+        g_bgt_max_lines = g_bgt_max_syncs = 0;                                                                         \
+    } while (0)
+#define BGT_LINE_SZ (sizeof(struct aws_string *))
+#define BGT_IS_LIST(l) ((l) == g_local || ((l) == g_pending && g_locked))
+#define BGT_BASE(l) ((l) == g_local ? g_base_l : g_base_p)
+
+/* what a synchronisation point does to the channel (see above).  The precondition is the model's consistency: the
+ * pending list is the tail of the accepted sequence (everything accepted and not yet taken by this thread). */
+#define BGT_SYNC_POINT                                                                                                 \
+    __CPROVER_requires((g_pending->length == 0 || g_base_p + g_pending->length == g_accepted) &&                      \
+                       "the pending list holds exactly the accepted lines this thread has not taken yet")             \
+    __CPROVER_assigns(g_pending->length, *g_finished_flag, g_accepted, g_base_p, g_sync_calls)                         \
+    __CPROVER_ensures(g_sync_calls == OLD(g_sync_calls) + 1)                                                           \
+    __CPROVER_ensures(g_pending->length >= OLD(g_pending->length) && g_accepted >= OLD(g_accepted))                    \
+    __CPROVER_ensures(g_accepted - OLD(g_accepted) == g_pending->length - OLD(g_pending->length))                      \
+    __CPROVER_ensures(OLD(g_pending->length) == 0 ? g_base_p == OLD(g_accepted) : g_base_p == OLD(g_base_p))           \
+    __CPROVER_ensures(g_bgt_bounded ==> g_accepted <= g_bgt_max_lines)                                                 \
+    __CPROVER_ensures(g_bgt_bounded && g_sync_calls >= g_bgt_max_syncs ==>                                             \
+                      *g_finished_flag && g_pending->length == OLD(g_pending->length))
+
+int bgt_lock_contract(struct aws_mutex *mutex)
+__CPROVER_requires(mutex == g_mutex && !g_locked && "the channel's own mutex, not held yet")
+BGT_SYNC_POINT
+__CPROVER_assigns(g_locked, g_lock_calls)
+__CPROVER_ensures(RET == AWS_OP_SUCCESS && g_locked && g_lock_calls == OLD(g_lock_calls) + 1)
+;
+int bgt_unlock_contract(struct aws_mutex *mutex)
+__CPROVER_requires(mutex == g_mutex && g_locked && "the channel's own mutex, held")
+__CPROVER_assigns(g_locked, g_unlock_calls)
+__CPROVER_ensures(RET == AWS_OP_SUCCESS && !g_locked && g_unlock_calls == OLD(g_unlock_calls) + 1)
+;
+/* The wait gives the mutex up and gets it back: a synchronisation point.  Nothing is promised about the predicate
+ * (the call may fail or wake spuriously): the thread has to re-read the state, which is what is proved. */
+int bgt_wait_pred_contract(
+    struct aws_condition_variable *condition_variable,
+    struct aws_mutex *mutex,
+    aws_condition_predicate_fn *pred,
+    void *pred_ctx)
+__CPROVER_requires(condition_variable == g_signal && mutex == g_mutex && g_locked && "the channel's signal, waited on with the channel mutex held")
+BGT_SYNC_POINT
+__CPROVER_ensures(g_locked)
+;
+
+/* abstract list operations (byte-level contracts: C09) */
+int bgt_init_dynamic_contract(struct aws_array_list *list, struct aws_allocator *alloc, size_t initial_item_allocation, size_t item_size)
+__CPROVER_requires(__CPROVER_w_ok(list, sizeof(*list)) && alloc != NULL && item_size == BGT_LINE_SZ && initial_item_allocation <= 1024)
+__CPROVER_requires(g_local_inits == 0)
+__CPROVER_assigns(*list, g_local, g_local_inits, g_base_l)
+/* cannot fail: 10 * 8 does not overflow and aws_mem_acquire aborts instead of returning NULL in this library version */
+__CPROVER_ensures(RET == AWS_OP_SUCCESS && list->length == 0 && list->alloc == alloc && list->item_size == item_size)
+__CPROVER_ensures(__CPROVER_pointer_equals(g_local, list) && g_local_inits == 1)
+;
+size_t bgt_length_contract(const struct aws_array_list *list)
+__CPROVER_requires(BGT_IS_LIST(list) && "the thread's private list, or the pending list while the channel mutex is held")
+__CPROVER_assigns()
+__CPROVER_ensures(RET == list->length)
+;
+void bgt_swap_contract(struct aws_array_list *list_a, struct aws_array_list *list_b)
+__CPROVER_requires(g_locked && "the pending list is only touched while the channel mutex is held")
+__CPROVER_requires((list_a == g_pending && list_b == g_local) || (list_a == g_local && list_b == g_pending))
+/* the real function's fatal preconditions */
+__CPROVER_requires(list_a->alloc != NULL && list_a->alloc == list_b->alloc && list_a->item_size == list_b->item_size)
+__CPROVER_assigns(*list_a, *list_b, g_base_p, g_base_l)
+__CPROVER_ensures(list_a->length == OLD(list_b->length) && list_b->length == OLD(list_a->length))
+__CPROVER_ensures(list_a->alloc == OLD(list_a->alloc) && list_b->alloc == OLD(list_b->alloc))
+__CPROVER_ensures(list_a->item_size == OLD(list_a->item_size) && list_b->item_size == OLD(list_b->item_size))
+__CPROVER_ensures(g_base_p == OLD(g_base_l) && g_base_l == OLD(g_base_p))
+;
+int bgt_get_at_contract(const struct aws_array_list *list, void *val, size_t index)
+__CPROVER_requires(BGT_IS_LIST(list) && "the thread's private list, or the pending list while the channel mutex is held")
+__CPROVER_requires(list->item_size == BGT_LINE_SZ && __CPROVER_w_ok(val, BGT_LINE_SZ))
+__CPROVER_assigns(index < list->length : __CPROVER_object_upto(val, BGT_LINE_SZ))
+__CPROVER_assigns(index >= list->length : g_last_error, g_raise_count)
+__CPROVER_ensures(RET == AWS_OP_SUCCESS || RET == AWS_OP_ERR)
+__CPROVER_ensures((RET == AWS_OP_SUCCESS) == (index < list->length))
+/* the element is the witness line exactly when its sequence number is the witness number */
+__CPROVER_ensures(RET == AWS_OP_SUCCESS ==> ((*(struct aws_string **)val == g_wline) == (BGT_BASE(list) + index == g_wseq)))
+;
+void bgt_clear_contract(struct aws_array_list *list)
+__CPROVER_requires(BGT_IS_LIST(list))
+__CPROVER_assigns(list->length)
+__CPROVER_ensures(list->length == 0)
+;
+/* only for changed code that takes lines off the front of a list: the first n elements go, the rest keep their numbers */
+void bgt_pop_front_n_contract(struct aws_array_list *list, size_t n)
+__CPROVER_requires(BGT_IS_LIST(list))
+__CPROVER_assigns(list->length, g_base_p, g_base_l)
+__CPROVER_ensures(list->length == (n >= OLD(list->length) ? 0 : OLD(list->length) - n))
+__CPROVER_ensures(list == g_local ? g_base_p == OLD(g_base_p) : g_base_l == OLD(g_base_l))
+__CPROVER_ensures(BGT_BASE(list) == (list == g_local ? OLD(g_base_l) : OLD(g_base_p)) + (n >= OLD(list->length) ? OLD(list->length) : n))
+;
+void bgt_local_clean_up_contract(struct aws_array_list *list)
+__CPROVER_requires(list == g_local && g_local_inits == 1 && g_local_cleanups == 0)
+__CPROVER_assigns(*list, g_local_cleanups)
+__CPROVER_ensures(g_local_cleanups == 1)
+;
+
+/* the writer: call number n is handed line number n, which has not been destroyed yet */
+int bgt_write_contract(struct aws_log_writer *writer, const struct aws_string *output)
+__CPROVER_requires(writer == g_bgt_writer && "the channel's writer")
+__CPROVER_requires(g_write_calls < g_accepted && "no more write calls than accepted lines")
+__CPROVER_requires(g_destroy_calls <= g_write_calls && "the line handed to the writer is still alive")
+__CPROVER_requires(((output == g_wline) == (g_write_calls == g_wseq)) && "write call n is handed line n (in order, exactly once)")
+__CPROVER_assigns(g_write_calls)
+__CPROVER_ensures(g_write_calls == OLD(g_write_calls) + 1)
+;
+void bgt_string_destroy_contract(struct aws_string *str)
+__CPROVER_requires(g_destroy_calls < g_write_calls && "a line is destroyed only after it was written")
+__CPROVER_requires(((str == g_wline) == (g_destroy_calls == g_wseq)) && "destroy call n destroys line n (exactly once)")
+__CPROVER_assigns(g_destroy_calls)
+__CPROVER_ensures(g_destroy_calls == OLD(g_destroy_calls) + 1)
+;
+void bgt_fatal_assert_contract(const char *cond_str, const char *file, int line)
+__CPROVER_requires(0 && "the thread never aborts")
+__CPROVER_assigns()
+__CPROVER_ensures(1)
 ;
 #endif
 
@@ -573,6 +726,49 @@ __CPROVER_ensures(!g_locked && g_lock_calls == 1 && g_unlock_calls == 1 && g_not
 __CPROVER_ensures(g_join_calls == 1 && g_teardown_calls == 4)
 /* clean-up does not add or remove pending lines itself */
 __CPROVER_ensures(g_len_at_unlock == g_len_at_lock)
+;
+
+/* Body of the background thread, SEQUENTIAL form of "none is lost ... clean-up flushes everything already accepted"
+ * (model and ghosts: pass 1, "body of the background thread").  For every number of wake-ups, every number of lines
+ * that arrive at each synchronisation point and every value `finished` shows there:
+ * when the thread function returns
+ *   - `finished` is set (the last thing it saw under the mutex; nothing else writes the flag in this model),
+ *   - the pending list is empty,
+ *   - the writer was called exactly g_accepted times and aws_string_destroy exactly g_accepted times, where g_accepted
+ *     is the number of lines accepted up to the synchronisation point at which it saw `finished` - and, by the
+ *     preconditions of bgt_write_contract / bgt_string_destroy_contract checked at every call, call n was for line n:
+ *     each accepted line written exactly once, in acceptance order, and destroyed exactly once, after its write,
+ *   - the mutex is released (as many unlocks as locks), the private list was initialised and cleaned up once,
+ *   - aws_fatal_assert is never reached.
+ * The channel is as aws_log_channel_init_background leaves it: the pending list is a dynamic list of string pointers
+ * on the channel's allocator; lines queued before the thread first runs are numbers 0 .. length-1. */
+#        define BGT_CH(p) ((struct aws_log_channel *)(p))
+#        define BGT(p) BG(BGT_CH(p))
+static void aws_background_logger_thread(void *thread_data)
+__CPROVER_requires(__CPROVER_is_fresh(thread_data, sizeof(struct aws_log_channel)) && BGT_CH(thread_data)->allocator != NULL)
+__CPROVER_requires(__CPROVER_is_fresh(BGT_CH(thread_data)->impl, sizeof(struct aws_log_background_channel)))
+__CPROVER_requires(__CPROVER_is_fresh(BGT_CH(thread_data)->writer, sizeof(struct aws_log_writer)))
+__CPROVER_requires(__CPROVER_is_fresh(BGT_CH(thread_data)->writer->vtable, sizeof(struct aws_log_writer_vtable)))
+__CPROVER_requires(__CPROVER_obeys_contract(BGT_CH(thread_data)->writer->vtable->write, bgt_write_contract))
+__CPROVER_requires(BGT(thread_data)->pending_log_lines.alloc == BGT_CH(thread_data)->allocator)
+__CPROVER_requires(BGT(thread_data)->pending_log_lines.item_size == BGT_LINE_SZ)
+__CPROVER_requires(__CPROVER_pointer_equals(g_pending, &BGT(thread_data)->pending_log_lines))
+__CPROVER_requires(__CPROVER_pointer_equals(g_finished_flag, &BGT(thread_data)->finished))
+__CPROVER_requires(g_mutex == &BGT(thread_data)->sync && g_signal == &BGT(thread_data)->pending_line_signal)
+__CPROVER_requires(g_bgt_writer == BGT_CH(thread_data)->writer)
+__CPROVER_requires(!g_locked && g_lock_calls == 0 && g_unlock_calls == 0 && g_sync_calls == 0)
+__CPROVER_requires(g_write_calls == 0 && g_destroy_calls == 0 && g_local_inits == 0 && g_local_cleanups == 0)
+__CPROVER_requires(g_base_p == 0 && g_accepted == BGT(thread_data)->pending_log_lines.length)
+__CPROVER_requires(g_bgt_bounded ==> g_accepted <= g_bgt_max_lines)
+__CPROVER_assigns(BGT(thread_data)->pending_log_lines, BGT(thread_data)->finished)
+__CPROVER_assigns(g_locked, g_lock_calls, g_unlock_calls, g_sync_calls, g_accepted, g_base_p, g_base_l)
+__CPROVER_assigns(g_local, g_local_inits, g_local_cleanups, g_write_calls, g_destroy_calls, g_last_error, g_raise_count)
+__CPROVER_ensures(BGT(thread_data)->finished && "returns only after it has seen finished")
+__CPROVER_ensures(BGT(thread_data)->pending_log_lines.length == 0 && "nothing is left pending")
+__CPROVER_ensures(g_write_calls == g_accepted && "every accepted line was handed to the writer")
+__CPROVER_ensures(g_destroy_calls == g_accepted && "every accepted line was destroyed")
+__CPROVER_ensures(!g_locked && g_lock_calls == g_unlock_calls)
+__CPROVER_ensures(g_local_inits == 1 && g_local_cleanups == 1)
 ;
 #    endif
 
